@@ -2,9 +2,9 @@ package main
 
 import (
 	"fmt"
-	mbig "math/big"
 	"go/ast"
 	"go/types"
+	mbig "math/big"
 )
 
 type intrinsic func(fc *FCtx, st *State, e *ast.CallExpr, recv *Val, args []Val) []Val
@@ -14,8 +14,8 @@ var intrinsics map[string]intrinsic
 const mathInt = "cosmossdk.io/math.Int"
 const legacyDec = "cosmossdk.io/math.LegacyDec"
 
-func bv(t string) []Val  { return []Val{{T: t, S: SBool, GoT: types.Typ[types.Bool]}} }
-func one(v Val) []Val    { return []Val{v} }
+func bv(t string) []Val                          { return []Val{{T: t, S: SBool, GoT: types.Typ[types.Bool]}} }
+func one(v Val) []Val                            { return []Val{v} }
 func (fc *FCtx) resT(e *ast.CallExpr) types.Type { return fc.info().TypeOf(e) }
 
 func init() {
@@ -313,7 +313,9 @@ func init() {
 	I := intrinsics
 	bigr := func(fc *FCtx, e *ast.CallExpr, t string) []Val { return []Val{{T: t, S: SInt, GoT: fc.resT(e)}} }
 	op2 := func(op string) intrinsic {
-		return func(fc *FCtx, st *State, e *ast.CallExpr, r *Val, a []Val) []Val { return bigr(fc, e, app(op, a[0].T, a[1].T)) }
+		return func(fc *FCtx, st *State, e *ast.CallExpr, r *Val, a []Val) []Val {
+			return bigr(fc, e, app(op, a[0].T, a[1].T))
+		}
 	}
 	p := "(*math/big.Int)."
 	I[p+"Add"] = op2("+")
